@@ -730,11 +730,9 @@ func reifyPrimitive(
 	// zero initialize value if val==nil
 	if isNil(val) {
 		v := tryInitDefaults(pointerize(t, baseType, reflect.Zero(baseType)))
-		if !hasInitDefaults(baseType) {
-			return v, nil
-		}
 
-		// what InitDefaults leaves behind is validated like a converted value
+		// the value a null setting stands for - the zero value, or what InitDefaults
+		// leaves behind - is validated like a converted value
 		var ctx context
 		var meta *Meta
 		if val != nil {
